@@ -51,7 +51,9 @@ def r18_1(ctx):
         detail = 'error propagated'
         path = []
         kind, why = allowed(rec)
-        if rec['dropped']:
+        if rec['dropped'] and kind == 'escapes':
+            detail = 'best-effort site (result deliberately discarded): ' + why
+        elif rec['dropped']:
             ok = False
             detail = 'result of %s is never inspected (silently dropped) at %s' % (rec['site'], rec['spans'][0])
             path = witness_path(q, rec['dropped'][0])
